@@ -544,6 +544,102 @@ static void op_indep(void) {
     free(alone.res.text); free(a); free(th); free(sb);
 }
 
+/* ------------------------------------------------------------------------------ first use, fresh process
+ *   firstuse <file...> <mode> <N> <trials> <api>      api: col | batch
+ * Concurrent FIRST use of the library: this process must not have called into the library yet (the check
+ * feeds firstuse lines to a driver process of their own; the file is written by a forked child).  Every
+ * trial is a fresh fork: N threads, each with its own reader handle (and, for api=col, its own column
+ * readers) opened before a spin barrier - opening touches neither the CRC tables nor the SIMD dispatch -
+ * are released together into their first page load.  Afterwards the same child reads once more with a
+ * single thread (by then everything is initialised): every thread must have returned exactly that. */
+#include <sys/wait.h>
+typedef struct { const fspec_t* f; int mode, api; volatile int* arrived; int n; uint64_t h; int bad_status; opened_t o;
+                 carquet_column_reader_t* cr[MAXC]; } fu_arg;
+
+static void fu_read(fu_arg* a) {
+    uint64_t h = FNV0; a->bad_status = 0;
+    if (a->api == 0) {
+        size_t cap = (size_t)a->f->rpp * (size_t)a->f->npages;
+        uint8_t* vals = malloc(16 * cap + 16); int16_t* def = malloc(2 * cap + 2);
+        for (int c = 0; c < a->f->ncols; c++) {
+            if (!a->cr[c]) { a->bad_status = 1; continue; }
+            int64_t n = carquet_column_read_batch(a->cr[c], vals, (int64_t)cap, type_optional(a->f->types[c]) ? def : NULL, NULL);
+            h = fnv(h, &n, sizeof n);
+            if (n != (int64_t)cap) a->bad_status = 1;
+            if (n > 0 && !type_optional(a->f->types[c]) && (a->f->types[c] | 0x20) != 'b') h = fnv(h, vals, (size_t)n * type_size(a->f->types[c]));
+            if (n > 0 && type_optional(a->f->types[c])) h = fnv(h, def, (size_t)n * 2);
+        }
+        free(vals); free(def);
+    } else {
+        rres_t r; read_all(a->o.r, a->f, a->f->rpp, 1, &r, 0);
+        h = r.h; free(r.text);
+        for (int i = 0; i < r.nst; i++) if (r.st[i] != CARQUET_OK && r.st[i] != CARQUET_ERROR_END_OF_DATA) a->bad_status = 1;
+    }
+    a->h = h;
+}
+static int fu_open(fu_arg* a) {
+    int oc = 0;
+    if (open_mode(a->f->path, a->mode, &a->o, &oc) != 0) return -1;
+    memset(a->cr, 0, sizeof a->cr);
+    if (a->api == 0) {
+        carquet_error_t err = CARQUET_ERROR_INIT;
+        for (int c = 0; c < a->f->ncols && c < MAXC; c++) a->cr[c] = carquet_reader_get_column(a->o.r, 0, c, &err);
+    }
+    return 0;
+}
+static void fu_close(fu_arg* a) {
+    for (int c = 0; c < MAXC; c++) if (a->cr[c]) carquet_column_reader_free(a->cr[c]);
+    close_mode(&a->o);
+}
+static void* fu_thread(void* p) {
+    fu_arg* a = (fu_arg*)p;
+    __atomic_add_fetch(a->arrived, 1, __ATOMIC_SEQ_CST);
+    while (__atomic_load_n(a->arrived, __ATOMIC_SEQ_CST) < a->n) { }     /* spin: released together */
+    fu_read(a);
+    return NULL;
+}
+static void op_firstuse(void) {
+    fspec_t f; int t = parse_fspec(&f, 1);
+    if (t < 0 || h_ntok < t + 4) { puts("ERR args"); return; }
+    int mode = parse_mode(h_tok[t]); int N = atoi(h_tok[t+1]); int trials = atoi(h_tok[t+2]);
+    int api = !strcmp(h_tok[t+3], "batch");
+    if (N < 2) N = 2; if (N > 32) N = 32;
+    f.nrg = 1;
+    /* the file is made by a child so that this process stays untouched */
+    fflush(stdout);
+    pid_t mk = fork();
+    if (mk == 0) _exit(make_file(&f) ? 3 : 0);
+    int st = 0; waitpid(mk, &st, 0);
+    if (!WIFEXITED(st) || WEXITSTATUS(st) != 0) { puts("ERR mkfile"); return; }
+    int differ = 0, crashed = 0, badstatus = 0, first = -1;
+    for (int tr = 0; tr < trials; tr++) {
+        pid_t pid = fork();
+        if (pid == 0) {
+            volatile int arrived = 0;
+            fu_arg* a = calloc((size_t)N, sizeof *a); pthread_t* th = calloc((size_t)N, sizeof *th);
+            int rc = 0;
+            for (int i = 0; i < N; i++) { a[i].f = &f; a[i].mode = mode; a[i].api = api; a[i].arrived = &arrived; a[i].n = N;
+                                          if (fu_open(&a[i]) != 0) _exit(5); }
+            for (int i = 0; i < N; i++) pthread_create(&th[i], NULL, fu_thread, &a[i]);
+            for (int i = 0; i < N; i++) pthread_join(th[i], NULL);
+            fu_arg alone; memset(&alone, 0, sizeof alone); alone.f = &f; alone.mode = mode; alone.api = api;
+            if (fu_open(&alone) != 0) _exit(5);
+            fu_read(&alone);
+            for (int i = 0; i < N; i++) { if (a[i].h != alone.h || a[i].bad_status != alone.bad_status) rc = 3; if (a[i].bad_status) rc = rc ? rc : 4; }
+            if (alone.bad_status) rc = 6;
+            for (int i = 0; i < N; i++) fu_close(&a[i]);
+            fu_close(&alone);
+            _exit(rc);
+        }
+        int s2 = 0; waitpid(pid, &s2, 0);
+        int code = WIFEXITED(s2) ? WEXITSTATUS(s2) : -1;
+        if (code == 3) { differ++; if (first < 0) first = tr; }
+        else if (code == 4) { badstatus++; if (first < 0) first = tr; }
+        else if (code != 0) { crashed++; if (first < 0) first = tr; }
+    }
+    printf("OK eq=%d trials=%d differ=%d badstatus=%d crashed=%d first=%d\n", (differ + crashed + badstatus) == 0, trials, differ, badstatus, crashed, first);
+}
+
 int main(void) {
     if (getenv("HCONC_SKIP_NULLDATA")) g_skip_nulldata = 1;
     while (h_readline()) {
@@ -555,6 +651,7 @@ int main(void) {
         } else if (!strcmp(h_tok[0], "gates")) op_gates();
         else if (!strcmp(h_tok[0], "batch")) op_batch();
         else if (!strcmp(h_tok[0], "indep")) op_indep();
+        else if (!strcmp(h_tok[0], "firstuse")) op_firstuse();
         else puts("ERR unknown-op");
         fflush(stdout);
     }
